@@ -31,7 +31,7 @@ ASSUMPTIONS = ['pandas: Index.intersection/union of sorted DatetimeIndexes are t
                'equals df_fillna(x, "ffill"), not x: theorems reindex_fill_own_nan, reindex_own_index_ffill/_bfill, law-reindex-own-index); without a fill method the NaN stays. '
                'Non-NaN cells are kept under every method (reindex_keep, reindex_fill_keeps)',
                'containers (rounds i4 / j4): list / tuple / dict and - tags DS / DD - instances of a dict SUBCLASS and collections.defaultdict, which `_list` opens and `loops` does not (known finding C03-S1, matcher dict_subclass_left_unaligned); presync lines with subclass containers are not generated. An explicit index is given as pd.Index / Series / dict(index=..): the LIST and ndarray spellings raise or work depending on the data (`df_reindex(a, [d1, d2])` works for one series, `df_reindex([a, b], [d1, d2])` raises - loops splits the list) and are outside these three spellings; intraday stamps and `pd.Series([], dtype=float)` members are not generated (probed: outer gives all-NaN on the datetime index, inner empty)',
-               "presync policy words (round k4, review v4 2.2): since repo fix d00fd3f (C03-W1) inner / outer / left / right / ij / oj / lj / rj always mean the policy, whatever the parameters of the decorated function are called (presyncw lines: names left / right / inner / outer / x / y, policy as word, attribute or default); any OTHER string that names a parameter selects that argument's index (presyncn lines, names p0..p3). presync with columns != False is sampled (law-presync-columns) and, for pointwise functions, proved under C08 (binopFG_value); the ORDER of aligned columns is compared as a set"]
+               "presync policy words (round k4, review v4 2.2): since repo fix d00fd3f (C03-W1) inner / outer / left / right / ij / oj / lj / rj always mean the policy, whatever the parameters of the decorated function are called (presyncw lines: names left / right / inner / outer / x / y, policy as word, attribute or default); any OTHER string that names a parameter selects that argument's index (presyncn lines, names p0..p3). RESERVED NAMES (round l4, review w4 F4): 'whatever the parameters are called' holds for arguments given POSITIONALLY (presyncw names join / method / columns are generated so) and for keywords of any other name (spelling kw); the keywords join, method and columns are presync's own documented controls, popped before the call (_pandas.py presync.wrapped), so a decorated function with a PARAMETER called join / method / columns cannot be given it by keyword - presync(lambda x, method: ..)(a, method = b) reads b as the fill method and raises TypeError missing argument 'method'. Declared, not a finding: join = 'oj' by keyword must stay the policy; such calls are outside 'presync-decorated functions get their arguments' as checked here. presync with columns != False is sampled (law-presync-columns) and, for pointwise functions, proved under C08 (binopFG_value); the ORDER of aligned columns is compared as a set"]
 S = 4
 nan = float('nan')
 VALS = [1.0, 2.0, 0.0, -1.5, 0.25, 3.0, 7.75, -4.0, 10.0, 20.5]
@@ -292,7 +292,7 @@ def generate(rng, tier):
         if rng.random() < 0.15:
             args[rng.randrange(2)] = rng.choice([1, 2.5, None])
         k, how, m = rng.randrange(len(WNAMES)), rng.choice(HOWS), rng.choice(METHODS)
-        sp = rng.choice(['word', 'attr'] + (['default'] if how == 'ij' else []))
+        sp = rng.choice(['word', 'attr'] + (['default'] if how == 'ij' else []) + (['kw'] if WNAMES[k][1] not in RESERVED else []))
         yield dict(tag='presyncw/%s/%s/%s' % ('+'.join(WNAMES[k]), how, sp),
                    lines=['(align presyncw %s I:%d %s %s %s)' % (enc_tree(tuple(args)), k, how, sp, m)])
     # presync(f)(*args, columns=False, **kwargs): Series, one- and multi-column frames, scalars, nested lists / dicts, keywords
@@ -468,7 +468,11 @@ def gen_presynck(rng, m=None):
 
 # parameter names that are also presync's policy words (review v4 2.2): `.lj` IS join='left', and a string that names a parameter used
 # to be read as "the index of that argument" before it was read as a policy
-WNAMES = [('left', 'right'), ('right', 'left'), ('x', 'left'), ('right', 'y'), ('inner', 'y'), ('x', 'outer'), ('outer', 'inner'), ('a', 'b')]
+# round l4 (review w4 F4): presync's OWN keywords join / method / columns as parameter names - given positionally they are ordinary
+# parameters (generated); by keyword they are presync's controls and never reach the function (RESERVED, declared in ASSUMPTIONS)
+WNAMES = [('left', 'right'), ('right', 'left'), ('x', 'left'), ('right', 'y'), ('inner', 'y'), ('x', 'outer'), ('outer', 'inner'), ('a', 'b'),
+          ('join', 'x'), ('x', 'method'), ('columns', 'y'), ('method', 'join')]
+RESERVED = ('join', 'method', 'columns')
 POLICY_WORD = {'ij': 'inner', 'oj': 'outer', 'lj': 'left', 'rj': 'right'}
 
 
@@ -588,7 +592,9 @@ def run_line(state, sx):
             return 'bad-op'
         names, how, sp = WNAMES[int(args[1][2:])], args[2], args[3]
         f = pyg_base.presync(eval('lambda %s, %s: (%s, %s)' % (names + names)))
-        if sp == 'word':
+        if sp == 'kw' and names[1] not in RESERVED:      # the second argument by keyword
+            res = f(tree[0], join=POLICY_WORD[how], method=dec_method(args[4]), **{names[1]: tree[1]})
+        elif sp == 'word':
             res = f(*tree, join=POLICY_WORD[how], method=dec_method(args[4]))
         elif sp == 'attr':
             res = getattr(f, how)(*tree, method=dec_method(args[4]))
